@@ -11,13 +11,13 @@ import numpy as np
 import pandas as pd
 from pymatgen.core import Lattice
 
-from . import core, gem, hist
+from . import core, gem, hist, translate
 from .core import Outcome, PropertySpec, enc
 
 from gemdat.collective import Collective  # noqa: E402
 
 PID = 'C12'
-MODULES = ['GProofs.Geometry', 'GProofs.C12']
+MODULES = ['GProofs.Geometry', 'GProofs.C12', 'GProofs.C12Gen']
 COLS = ['atom index', 'start site', 'destination site', 'start time', 'stop time']
 
 
@@ -272,6 +272,7 @@ SPEC = PropertySpec(
     modules=MODULES,
     run=run,
     replay=replay,
+    gen=translate.generate,
     rule=('random jump tables of 2-14 distinct rows (4 atoms, 3-7 sites on a k/8 grid of a pool lattice incl. triclinic ones, start '
           'times 0..40, 40% long transits overlapping many other jumps), window 0-5, cut-off from {0.5,1,2,3,4.5,6} kept >= 1e-6 from '
           'every site distance; through Collective(...) directly and a few through Jumps.collective() (window formula recomputed from '
